@@ -296,6 +296,15 @@ class C01(Spec):
             for n in (1, 2, 3, 7):
                 yield {'kind': 'square_fn', 'fs': 100.0, 'depth': 1.0, 'fm': 40.0, 'duty': 0.5, 'alpha': 0,
                        'off': off, 'n': n}
+        # the regime newly covered by square_fragment_eq_slice: periods below two samples (several
+        # periods per sample, rounded starts repeat) and duty lengths beyond the gap to the next
+        # period start (overlapping windows: the later period wins)
+        for P in (0.5, 0.75, 1.0, 1.5, 2.5, 3.5):
+            for duty in (1.0, 1.5, 2.5):
+                for off in (0, 1, 2, 3, 6, 7, 10, 11):
+                    for n in (1, 4, 9):
+                        yield {'kind': 'square_fn', 'fs': 1000.0, 'depth': 0.5, 'fm': 1000.0 / P, 'duty': duty,
+                               'alpha': 0.5, 'off': off, 'n': n}
         if tier == 'thorough':
             yield from self.exhaustive_cases()
 
